@@ -409,6 +409,87 @@ func runC10(t *testing.T, seed int64, n int, out *Out) {
 					}
 				}
 			}
+			// the same pair inside ONE close-positions request (sweep switched off): the first entry is liquidatable and really closes, which
+			// moves the lp token price; the second entry's stop loss is put between the price before and the price after that close. When
+			// the handler comes to the second entry the market is above its stop loss: it has to be left alone.
+			type reqPairT struct {
+				a, b      lptypes.Position
+				pricePost math.LegacyDec
+			}
+			var reqPair *reqPairT
+			if !pairForced && !postGap && gapSeen && sweep == "off" && r.Intn(2) == 0 {
+				all := w.App.LeveragelpKeeper.GetAllPositions(w.Ctx())
+			rpairs:
+				for i := 0; i < len(all); i++ {
+					for j := 0; j < len(all); j++ {
+						a, b := all[i], all[j]
+						ob := w.byAddr[b.Address]
+						if i == j || a.AmmPoolId != b.AmmPoolId || a.Address == b.Address || ob == nil {
+							continue
+						}
+						var ha, hb math.LegacyDec
+						for _, q := range pred {
+							if q.Module == "lp" && q.Id == a.Id && q.PredErr == "" {
+								ha = q.Health
+							}
+							if q.Module == "lp" && q.Id == b.Id && q.PredErr == "" {
+								hb = q.Health
+							}
+						}
+						if ha.IsNil() || !ha.IsPositive() || ha.Mul(D("1.002")).GTE(D("3")) || ha.Mul(D("1.002")).LTE(D("1")) || hb.IsNil() || hb.LTE(ha.Mul(D("1.01"))) {
+							continue
+						}
+						sfOld := lpSafety()
+						w.Seed(func(ctx sdk.Context) {
+							p := w.App.LeveragelpKeeper.GetParams(ctx)
+							p.SafetyFactor = ha.Mul(D("1.002"))
+							_ = w.App.LeveragelpKeeper.SetParams(ctx, &p)
+						})
+						// what the first entry's close does to the lp token price, on a discarded copy of the next block's state
+						hdr := w.header()
+						hdr.Time = w.Time.Add(dt)
+						cctx, _ := w.App.BaseApp.NewUncachedContext(false, hdr).CacheContext()
+						var pricePre, pricePost math.LegacyDec
+						func() {
+							defer func() { _ = recover() }()
+							ap, _ := w.App.AmmKeeper.GetPool(cctx, a.AmmPoolId)
+							pp, err := ap.LpTokenPrice(cctx, w.App.OracleKeeper, w.App.AccountedPoolKeeper)
+							if err != nil {
+								return
+							}
+							pricePre = pp
+							lpms := lpkeeper.NewMsgServerImpl(*w.App.LeveragelpKeeper)
+							if _, err := lpms.ClosePositions(cctx, &lptypes.MsgClosePositions{Creator: bots[0].Addr.String(), Liquidate: []*lptypes.PositionRequest{{Address: a.Address, Id: a.Id}}}); err != nil {
+								return
+							}
+							if _, still := w.lpPositions(cctx)[a.Id]; still {
+								return // it did not close
+							}
+							ap2, _ := w.App.AmmKeeper.GetPool(cctx, a.AmmPoolId)
+							if pq, err := ap2.LpTokenPrice(cctx, w.App.OracleKeeper, w.App.AccountedPoolKeeper); err == nil {
+								pricePost = pq
+							}
+						}()
+						if pricePre.IsNil() || pricePost.IsNil() || !pricePost.GT(pricePre) {
+							w.Seed(func(ctx sdk.Context) {
+								p := w.App.LeveragelpKeeper.GetParams(ctx)
+								p.SafetyFactor = sfOld
+								_ = w.App.LeveragelpKeeper.SetParams(ctx, &p)
+							})
+							continue
+						}
+						sl := pricePre.Add(pricePost).QuoInt64(2)
+						res := tx(ob, &lptypes.MsgUpdateStopLoss{Creator: ob.Addr.String(), Position: b.Id, Price: sl})
+						stats["requestPair/stopLoss/"+codeStr(res.Code)]++
+						if res.Code == 0 {
+							reqPair = &reqPairT{a: a, b: b, pricePost: pricePost}
+							pairForced = true
+						}
+						pred = w.c10Predict(dt)
+						break rpairs
+					}
+				}
+			}
 			var gapTarget *c10Pos
 			if !pairForced && len(pred) > 0 && (postGap || r.Intn(2) == 0) {
 				c := pred[r.Intn(len(pred))]
@@ -552,8 +633,17 @@ func runC10(t *testing.T, seed int64, n int, out *Out) {
 			key := func(c c10Pos) string { return c.Module + "/" + itoa(c.Id) }
 			var lpLiq, lpSl []*lptypes.PositionRequest
 			var pLiq, pSl, pTp []perptypes.PositionRequest
+			if reqPair != nil {
+				// the directed request: [liquidate a, stop-loss b]; b is judged at the price a's close leaves
+				module = "lp"
+				lpLiq = append(lpLiq, &lptypes.PositionRequest{Address: reqPair.a.Address, Id: reqPair.a.Id})
+				lpSl = append(lpSl, &lptypes.PositionRequest{Address: reqPair.b.Address, Id: reqPair.b.Id})
+				req["lp/"+itoa(reqPair.a.Id)] = []string{"liquidate"}
+				req["lp/"+itoa(reqPair.b.Id)] = []string{"stopLoss"}
+				stats["requestPair/sent"]++
+			}
 			for _, c := range pred {
-				if c.Module != module || r.Intn(3) == 0 {
+				if reqPair != nil || c.Module != module || r.Intn(3) == 0 {
 					continue
 				}
 				if module == "lp" {
@@ -654,6 +744,17 @@ func runC10(t *testing.T, seed int64, n int, out *Out) {
 						settledIn[c.Pool]++
 						settledSelf[c.Id] = true
 					}
+				}
+			}
+			if reqPair != nil {
+				// the first entry really closed: the second was examined at the price that close left (otherwise at the price before it)
+				if _, still := lpNow[reqPair.a.Id]; !still {
+					for i := range pred {
+						if pred[i].Module == "lp" && pred[i].Id == reqPair.b.Id {
+							pred[i].Price = reqPair.pricePost
+						}
+					}
+					stats["requestPair/firstClosed"]++
 				}
 			}
 			for _, c := range pred {
